@@ -172,7 +172,11 @@ Definition apply_op (t : tables) (o : op) : result :=
   | OIface k ms => Ok (mkT (funcs t) (structs t) (bind k ms (ifaces t)) (typedefs t) (vars t) (enums t) (impls t) (ctors t) (dtors t) (istatics t) (loaded t))
   | OTypedef k x => Ok (mkT (funcs t) (structs t) (ifaces t) (bind k x (typedefs t)) (vars t) (enums t) (impls t) (ctors t) (dtors t) (istatics t) (loaded t))
   | OVar k c v => Ok (mkT (funcs t) (structs t) (ifaces t) (typedefs t) (bind k (c, v) (vars t)) (enums t) (impls t) (ctors t) (dtors t) (istatics t) (loaded t))
-  | OEnum k ms => Ok (mkT (funcs t) (structs t) (ifaces t) (typedefs t) (vars t) (bind k ms (enums t)) (impls t) (ctors t) (dtors t) (istatics t) (loaded t))
+  | OEnum k ms =>                                    (* EnumManager::register_enum: "already exists" -> return *)
+      match lookup k (enums t) with
+      | Some _ => Ok t
+      | None => Ok (mkT (funcs t) (structs t) (ifaces t) (typedefs t) (vars t) (bind k ms (enums t)) (impls t) (ctors t) (dtors t) (istatics t) (loaded t))
+      end
   | OCtor s a b => Ok (mkT (funcs t) (structs t) (ifaces t) (typedefs t) (vars t) (enums t) (impls t) (ctors t ++ [(s, (a, b))]) (dtors t) (istatics t) (loaded t))
   | ODtor s b => Ok (mkT (funcs t) (structs t) (ifaces t) (typedefs t) (vars t) (enums t) (impls t) (ctors t) (bind s b (dtors t)) (istatics t) (loaded t))
   | OImpl d =>
